@@ -361,7 +361,7 @@ impl Check for C05 {
     }
     fn plan(&self, tier: Tier) -> Plan {
         let quick = tier == Tier::Quick;
-        Plan { cases: if quick { 64 } else { 900 }, max_tape: 230, min_slots: 3, max_slots: 12, shard_cases: 2, shard_timeout_s: if quick { 300 } else { 900 }, max_shrink_iters: 60, ..Plan::default() }
+        Plan { cases: if quick { 160 } else { 1600 }, max_tape: 230, min_slots: 3, max_slots: 12, shard_cases: 2, shard_timeout_s: if quick { 300 } else { 900 }, max_shrink_iters: 60, ..Plan::default() }
     }
     fn abort_is_violation(&self) -> bool {
         true
@@ -418,6 +418,12 @@ impl Check for C05 {
                 match it.cfg.open(&it.dir) {
                     Ok(db) => it.db = Some(db),
                     Err(e) => {
+                        if vlib::is_resource_exhaustion(&format!("{e}")) {
+                            it.out.class("inconclusive-resource-exhaustion");
+                            it.out.count("inconclusive_resource_exhaustion", 1);
+                            it.stopped = true;
+                            return;
+                        }
                         it.fail("C05", "open-failed", format!("reopening after the crash failed: {e}"));
                         return;
                     }
@@ -501,7 +507,7 @@ impl Check for C06 {
     }
     fn plan(&self, tier: Tier) -> Plan {
         let quick = tier == Tier::Quick;
-        Plan { cases: if quick { 64 } else { 800 }, max_tape: 230, min_slots: 6, max_slots: 16, shard_cases: 2, shard_timeout_s: if quick { 300 } else { 900 }, max_shrink_iters: 60, ..Plan::default() }
+        Plan { cases: if quick { 192 } else { 1600 }, max_tape: 230, min_slots: 6, max_slots: 16, shard_cases: 2, shard_timeout_s: if quick { 300 } else { 900 }, max_shrink_iters: 60, ..Plan::default() }
     }
     fn abort_is_violation(&self) -> bool {
         true
@@ -579,6 +585,11 @@ impl Check for C06 {
                     Ok(db) => it.db = Some(db),
                     Err(e) => {
                         it.stopped = true;
+                        if vlib::is_resource_exhaustion(&format!("{e}")) {
+                            it.out.class("inconclusive-resource-exhaustion");
+                            it.out.count("inconclusive_resource_exhaustion", 1);
+                            return;
+                        }
                         it.out.fail("C06/open-failed", format!("reopening fails when index files of sealed segment {bucket}:{seg_id} are {}: {e}", serde_json::to_string(&desc).unwrap_or_default()));
                         return;
                     }
@@ -991,7 +1002,7 @@ impl Check for C04 {
     }
     fn plan(&self, tier: Tier) -> Plan {
         let quick = tier == Tier::Quick;
-        Plan { cases: if quick { 240 } else { 4000 }, max_tape: 230, min_slots: 4, max_slots: 30, shard_cases: 4, shard_timeout_s: if quick { 300 } else { 900 }, max_shrink_iters: 150, ..Plan::default() }
+        Plan { cases: if quick { 800 } else { 8000 }, max_tape: 230, min_slots: 4, max_slots: 30, shard_cases: 4, shard_timeout_s: if quick { 300 } else { 900 }, max_shrink_iters: 150, ..Plan::default() }
     }
     fn abort_is_violation(&self) -> bool {
         true
